@@ -20,6 +20,7 @@ Section Striping.
   Notation T := CuckooConcInv.T.
   Notation allp := CuckooConcInv.allp.
   Notation absent := (CuckooConcInv.absent cf).
+  Notation all_items := CuckooConcInv.all_items.
 
   Definition optQ {A} (P : A -> tview -> Prop) : option A -> tview -> Prop :=
     fun r v => match r with Some x => P x v | None => True end.
@@ -603,17 +604,938 @@ Section Striping.
   Qed.
 
   (** a move of items between a probe set and the in-flight / pending items of the thread: no linearization point *)
-  Lemma Inv_move g g' a tr t v' tb b new kk ob ok :
+  Lemma Inv_move g g' a tr tr' t v' tb b new :
     Inv g a tr -> Core g' (setv a t v') -> tabs g' = set_bkt (tabs g) tb b new -> tb < 2 -> b < S (mask g) ->
-    v_op v' = v_op (a_view a t) ->
+    v_op v' = v_op (a_view a t) -> hist_of tr' = hist_of tr -> (dropped tr -> dropped tr') ->
     (forall x, In x new \/ In x (v_fly v') \/ In x (v_pend v') <-> In x (T g tb b) \/ In x (fly a t) \/ In x (pend a t)) ->
-    Inv g' (setv a t v') (tr ++ Conc.tag t [EvAcc kk ob ok]).
+    Inv g' (setv a t v') tr'.
   Proof.
-    intros [Hc Ha] Hc' Ct Htb Hb Hop Hmv. split; [exact Hc'|].
+    intros [Hc Ha] Hc' Ct Htb Hb Hop Hh Hdr Hmv. split; [exact Hc'|].
+    destruct Ha as [Hd|(s & st & H1 & H2 & H3 & H4 & H5)]; [left; auto|right].
+    exists s, st. rewrite Hh. split; auto. split; auto. split.
+    - intros t0. rewrite H3. destruct (Nat.eq_dec t0 t) as [->|Hne]; [now rewrite setv_same|now rewrite setv_other].
+    - split; auto. intros x. rewrite H5. symmetry. eapply allp_move; eauto.
+  Qed.
+
+
+  (** *** inserting an item into one of its own probe sets (insert, relocation, re-insertion) *)
+  Lemma bk_lt g k tb : bk g k tb < S (mask g).
+  Proof. unfold bk. apply Nat.mod_upper_bound. lia. Qed.
+
+  Definition with_tab (v : tview) (tb b : nat) (new : list item) (f p : list item) : tview :=
+    mkTV (v_op v) (v_held v) (v_mic v) (v_mask v)
+         (fun tb' b' => if Nat.eqb tb' tb && Nat.eqb b' b then new else v_reg v tb' b') f p.
+
+  Lemma khas_new_other (new old : list item) x k' :
+    (forall y, In y new <-> y = x \/ In y old) -> k' <> fst x -> khas k' new = khas k' old.
+  Proof.
+    intros Hn Hne. destruct (khas k' old) eqn:E.
+    - apply khas_true in E. destruct E as (o & Hin). apply khas_true. exists o. apply Hn. now right.
+    - apply khas_false. intros o Hin. apply Hn in Hin. destruct Hin as [E'|Hin].
+      + apply Hne. now rewrite <- E'.
+      + rewrite khas_false in E. eapply E; eauto.
+  Qed.
+
+  (** [v'] is [v] with probe set (tb, b) replaced by [new] and the in-flight / pending items [f], [p] *)
+  Definition tab_view (v v' : tview) (tb b : nat) (new f p : list item) : Prop :=
+    v_held v' = v_held v /\ v_mic v' = v_mic v /\ v_mask v' = v_mask v /\
+    (forall tb' b', v_reg v' tb' b' = if Nat.eqb tb' tb && Nat.eqb b' b then new else v_reg v tb' b') /\
+    v_fly v' = f /\ v_pend v' = p.
+
+  Lemma tab_view_with_tab v tb b new f p : tab_view v (with_tab v tb b new f p) tb b new f p.
+  Proof. repeat split. Qed.
+  Lemma tab_view_with_op v v' tb b new f p o : tab_view v v' tb b new f p -> tab_view v (with_op v' o) tb b new f p.
+  Proof. intros H. exact H. Qed.
+
+  Lemma Core_insert g a t v' x tb new f p :
+    Core g a -> tb < 2 -> auth (a_view a t) tb (bk g (fst x) tb) -> absent g x ->
+    tab_view (a_view a t) v' tb (bk g (fst x) tb) new f p ->
+    (forall y, In y new <-> y = x \/ In y (T g tb (bk g (fst x) tb))) -> NoDup (keys new) ->
+    (forall y, In y f -> In y (fly a t) /\ fst y <> fst x) -> length f <= 1 ->
+    (forall y, In y p -> In y (pend a t) /\ fst y <> fst x) -> NoDup (keys p) -> (p <> [] -> pend a t <> []) ->
+    Core (set_tabs g (set_bkt (tabs g) tb (bk g (fst x) tb) new)) (setv a t v').
+  Proof.
+    intros Hc Htb Hau Hab (V1 & V2 & V3 & V4 & V5 & V6) Hnew Hnd Hf Hf1 Hp Hpn Hpe. set (b := bk g (fst x) tb) in *.
+    assert (Hkn : forall k', k' <> fst x -> khas k' new = khas k' (T g tb b)) by (intros; eapply khas_new_other; eauto).
+    assert (Hif : forall y tb', fst y <> fst x -> tb' < 2 -> absent g y ->
+              khas (fst y) (if Nat.eqb tb' tb && Nat.eqb (hx cf y tb' mod S (mask g)) b then new else T g tb' (hx cf y tb' mod S (mask g))) = false).
+    { intros y tb' Hne Htb' Hay. destruct (Nat.eqb_spec tb' tb) as [->|E1]; destruct (Nat.eqb_spec (hx cf y tb mod S (mask g)) b) as [E2|E2]; cbn [andb];
+        try (apply Hay; auto). rewrite Hkn by exact Hne. rewrite <- E2. apply Hay; auto. }
+    apply (Core_table cf g _ a t v' tb b new Hc); cbn [rspin rown mask tabs set_tabs]; auto.
+    - apply bk_lt.
+    - intros y Hy. apply Hnew in Hy. destruct Hy as [->|Hy]; [reflexivity|]. apply (c_placed Hc tb b y Htb Hy).
+    - intros y z b' Hy Hz. apply Hnew in Hy. destruct Hy as [->|Hy].
+      + intros E. assert (Ho : other tb < 2) by (destruct tb as [|[|?]]; cbn; lia).
+        pose proof (c_placed Hc (other tb) b' z Ho Hz) as Hb'. specialize (Hab (other tb) Ho).
+        unfold hx in Hb'. rewrite <- E in Hb'. unfold hx in Hab. rewrite Hb' in Hab. rewrite khas_false in Hab.
+        eapply (Hab (snd z)). rewrite E. destruct z; exact Hz.
+      + destruct tb as [|[|tb]]; [| |lia]; cbn [other] in Hz.
+        * eapply (c_cross Hc); eauto.
+        * intros E. eapply (c_cross Hc b' b z y); eauto.
+    - rewrite V5. intros y Hy. destruct (Hf y Hy) as [Hy' Hne]. destruct (c_fly Hc t y Hy') as (A0 & A1 & A2 & A3).
+      split; [exact A0|split; [exact A1|split; [exact A2|intros tb' Htb'; apply Hif; auto]]].
+    - now rewrite V5.
+    - rewrite V6. intros Hne. apply (c_pend Hc t). auto.
+    - now rewrite V6.
+    - rewrite V6, V5. intros y Hy. destruct (Hp y Hy) as [Hy' Hne]. destruct (c_pend2 Hc t) as [_ B]. destruct (B y Hy') as [B1 B2].
+      split; [intros tb' Htb'; apply Hif; auto|]. intros z Hz. destruct (Hf z Hz) as [Hz' _]. auto.
+  Qed.
+
+
+  Lemma lookup_none g k : lookup g k = None -> forall tb, tb < 2 -> khas k (T g tb (bk g k tb)) = false.
+  Proof.
+    unfold lookup. destruct (kget k (T g 0 (bk g k 0))) eqn:E0; [discriminate|]. intros E1 tb Htb.
+    destruct tb as [|[|tb]]; [now apply kget_none|now apply kget_none|lia].
+  Qed.
+
+  (** moving [x] from the thread's in-flight / pending items into one of its probe sets *)
+  Lemma Inv_insert_move g a tr t v' x tb new f p kk ob ok :
+    Inv g a tr -> tb < 2 -> auth (a_view a t) tb (bk g (fst x) tb) -> absent g x ->
+    tab_view (a_view a t) v' tb (bk g (fst x) tb) new f p -> v_op v' = v_op (a_view a t) ->
+    (forall y, In y new <-> y = x \/ In y (T g tb (bk g (fst x) tb))) -> NoDup (keys new) ->
+    (forall y, In y f -> In y (fly a t) /\ fst y <> fst x) -> length f <= 1 ->
+    (forall y, In y p -> In y (pend a t) /\ fst y <> fst x) -> NoDup (keys p) -> (p <> [] -> pend a t <> []) ->
+    (forall y, y = x \/ In y f \/ In y p <-> In y (fly a t) \/ In y (pend a t)) ->
+    Inv (set_tabs g (set_bkt (tabs g) tb (bk g (fst x) tb) new)) (setv a t v') (tr ++ Conc.tag t [EvAcc kk ob ok]).
+  Proof.
+    intros Hi Htb Hau Hab Hv Hop Hnew Hnd Hf Hf1 Hp Hpn Hpe Hmv. pose proof Hi as [Hc Ha].
+    eapply Inv_move; [exact Hi|eapply Core_insert; eauto|reflexivity|exact Htb|apply bk_lt|exact Hop|apply hist_of_acc|apply dropped_app|].
+    destruct Hv as (_ & _ & _ & _ & V5 & V6). intros y. rewrite V5, V6, Hnew. specialize (Hmv y). tauto.
+  Qed.
+
+  (** the linearization point of a successful insertion: the new item goes into one of its probe sets *)
+  Lemma Inv_lp_insert g a tr t v' k tb new (o : iop) (r : res) kk ob ok :
+    Inv g a tr -> in_cs g a t k -> tb < 2 -> lookup g k = None ->
+    v_op (a_view a t) = Pending (o : Op ISet) -> v_op v' = Linearized (o : Op ISet) (r : Res ISet) ->
+    tab_view (a_view a t) v' tb (bk g k tb) new [] [] ->
+    (forall s, khas k s = false -> istep s o = ((k, t) :: s, r)) ->
+    (forall y, In y new <-> y = (k, t) \/ In y (T g tb (bk g k tb))) -> NoDup (keys new) ->
+    Inv (set_tabs g (set_bkt (tabs g) tb (bk g k tb) new)) (seta (setv a t v') (a_atr a ++ [ALin t]))
+        (tr ++ Conc.tag t [EvAcc kk ob ok]).
+  Proof.
+    intros [Hc Ha] Hcs Htb Hlk Hop Hop' Hv Hstep Hnew Hnd. pose proof Hcs as (Hau & Hfl & Hpe).
+    assert (Hab : absent g (k, t)) by (intros tb' Htb'; apply (lookup_none g k Hlk tb' Htb')).
+    set (g' := set_tabs g (set_bkt (tabs g) tb (bk g k tb) new)).
+    assert (Hc1 : Core g' (setv a t v')).
+    { apply (Core_insert g a t v' (k, t) tb new [] [] Hc Htb (Hau tb Htb) Hab Hv Hnew Hnd);
+        [intros y []|cbn; lia|intros y []|constructor|congruence]. }
+    eapply Inv_table; [exact Hc|exact Hc1|exact Ha|].
+    intros s st H1 H2 H3 H4 H5.
+    assert (Hks : khas k s = false).
+    { apply kget_none. rewrite (abs_lookup g a t k s Hc Hcs H4 H5). exact Hlk. }
+    exists ((k, t) :: s), (Lin.upd st t (Linearized (o : Op ISet) (r : Res ISet))).
+    split; [|split; [|split; [|split]]].
+    - eapply lp_ext; [exact H1|]. cbn [lp_step]. rewrite H3, Hop. cbn [sstep ISet mkSpec]. rewrite (Hstep s Hks). reflexivity.
+    - rewrite erase_app, H2. cbn. now rewrite app_nil_r.
+    - apply st_setv; auto.
+    - unfold keys. cbn [map fst]. constructor; auto. intros Hin. apply khas_in_keys in Hin. congruence.
+    - intros y. destruct Hv as (_ & _ & _ & _ & V5 & V6).
+      rewrite (allp_table cf g g' a t v' tb (bk g k tb) new Hc eq_refl Htb (bk_lt g k tb) y).
+      rewrite V5, V6. cbn [In]. rewrite H5, (allp_split g a t tb (bk g k tb) Htb y), Hfl, Hpe, Hnew. cbn [In].
+      assert (Heq : (k, t) = y <-> y = (k, t)) by (split; congruence). tauto.
+  Qed.
+
+
+  (** *** removal of the item found (erase / unlink): the linearization point *)
+  Lemma Inv_lp_remove g a tr t v' k tb x (o : iop) (r : res) kk ob ok :
+    Inv g a tr -> in_cs g a t k -> tb < 2 -> lookup g k = Some x -> In x (T g tb (bk g k tb)) ->
+    v_op (a_view a t) = Pending (o : Op ISet) -> v_op v' = Linearized (o : Op ISet) (r : Res ISet) ->
+    tab_view (a_view a t) v' tb (bk g k tb) (kdel k (T g tb (bk g k tb))) [] [] ->
+    (forall s, kget k s = Some x -> istep s o = (kdel k s, r)) ->
+    Inv (set_tabs g (set_bkt (tabs g) tb (bk g k tb) (kdel k (T g tb (bk g k tb))))) (seta (setv a t v') (a_atr a ++ [ALin t]))
+        (tr ++ Conc.tag t [EvAcc kk ob ok]).
+  Proof.
+    intros [Hc Ha] Hcs Htb Hlk Hx Hop Hop' Hv Hstep. pose proof Hcs as (Hau & Hfl & Hpe).
+    set (b := bk g k tb) in *. set (old := T g tb b) in *. set (new := kdel k old).
+    set (g' := set_tabs g (set_bkt (tabs g) tb b new)).
+    destruct Hv as (V1 & V2 & V3 & V4 & V5 & V6).
+    assert (Hsub : forall y, In y new -> In y old) by (intros y Hy; apply kdel_in in Hy; tauto).
+    assert (Hc1 : Core g' (setv a t v')).
+    { apply (Core_table cf g g' a t v' tb b new Hc);
+        [reflexivity|reflexivity|reflexivity|reflexivity|exact Htb|apply bk_lt|apply Hau; exact Htb|exact V1|exact V2|exact V3|exact V4|..].
+      - intros y Hy. apply (c_placed Hc tb b y Htb (Hsub y Hy)).
+      - apply keys_kdel_nodup. apply (c_nodup Hc).
+      - intros y z b' Hy Hz. apply Hsub in Hy. destruct tb as [|[|tb]]; [| |lia]; cbn [other] in Hz.
+        + eapply (c_cross Hc); eauto.
+        + intros E. eapply (c_cross Hc b' b z y); eauto.
+      - rewrite V5. intros y [].
+      - rewrite V5. cbn. lia.
+      - rewrite V6. congruence.
+      - rewrite V6. constructor.
+      - rewrite V6. intros y []. }
+    eapply Inv_table; [exact Hc|exact Hc1|exact Ha|].
+    intros s st H1 H2 H3 H4 H5.
+    assert (Hks : kget k s = Some x) by (rewrite (abs_lookup g a t k s Hc Hcs H4 H5); exact Hlk).
+    destruct (lookup_bucket g a k x Hc Hlk) as (Hkx & tb0 & Htb0 & Hx0 & Hoth).
+    assert (tb0 = tb).
+    { destruct (Nat.eq_dec tb0 tb) as [E|E]; auto. exfalso. specialize (Hoth tb Htb ltac:(auto)).
+      rewrite khas_false in Hoth. eapply (Hoth (snd x)).
+      assert (E' : (k, snd x) = x) by (rewrite <- Hkx; destruct x; reflexivity). rewrite E'. exact Hx. }
+    subst tb0.
+    exists (kdel k s), (Lin.upd st t (Linearized (o : Op ISet) (r : Res ISet))).
+    split; [|split; [|split; [|split]]].
+    - eapply lp_ext; [exact H1|]. cbn [lp_step]. rewrite H3, Hop. cbn [sstep ISet mkSpec]. rewrite (Hstep s Hks). reflexivity.
+    - rewrite erase_app, H2. cbn. now rewrite app_nil_r.
+    - apply st_setv; auto.
+    - now apply keys_kdel_nodup.
+    - intros y. rewrite kdel_in, H5.
+      rewrite (allp_table cf g g' a t v' tb b new Hc eq_refl Htb (bk_lt g k tb) y), V5, V6.
+      rewrite (allp_split g a t tb b Htb y), Hfl, Hpe. cbn [In]. unfold new. rewrite kdel_in.
+      assert (K1 : forall tb' b', tb' < 2 -> (tb', b') <> (tb, b) -> In y (T g tb' b') -> fst y <> k).
+      { intros tb' b' Htb' Hne Hy E. pose proof (c_placed Hc tb' b' y Htb' Hy) as Hb'. unfold hx in Hb'. rewrite E in Hb'. fold (bk g k tb') in Hb'.
+        destruct (Nat.eq_dec tb' tb) as [->|Et]; [apply Hne; unfold b; now rewrite Hb'|].
+        specialize (Hoth tb' Htb' Et). rewrite khas_false in Hoth. eapply (Hoth (snd y)).
+        assert (E' : (k, snd y) = y) by (rewrite <- E; destruct y; reflexivity). rewrite E', Hb'. exact Hy. }
+      assert (K2 : forall t0, In y (fly a t0) -> fst y <> k) by (intros t0 Hy E; eapply (proj1 (cs_no_other g a t k y Hc Hcs E)); eauto).
+      assert (K3 : forall t0, In y (pend a t0) -> fst y <> k) by (intros t0 Hy E; eapply (proj2 (cs_no_other g a t k y Hc Hcs E)); eauto).
+      split.
+      + intros [[H|[(tb' & b' & A1 & A2 & A3)|[[]|[(t0 & A1 & A2)|[[]|(t0 & A1 & A2)]]]]] Hne]; [left; auto|right; left; eauto|right; right; right; left; eauto|right; right; right; right; right; eauto].
+      + intros [[H Hne]|[(tb' & b' & A1 & A2 & A3)|[[]|[(t0 & A1 & A2)|[[]|(t0 & A1 & A2)]]]]].
+        * split; auto.
+        * split; [right; left; eauto|eapply K1; eauto].
+        * split; [right; right; right; left; eauto|eapply K2; eauto].
+        * split; [right; right; right; right; right; eauto|eapply K3; eauto].
+  Qed.
+
+  (** *** relocation: the victim leaves its probe set (in the step that took the victim's second lock) *)
+  Lemma Inv_rm_first g a tr t v' tb b x rest :
+    Inv g a tr -> tb < 2 -> b < S (mask g) -> auth (a_view a t) tb b -> T g tb b = x :: rest ->
+    fly a t = [] -> In (0, 0, h0 cf x mod L) (held a t) -> In (0, 1, h1 cf x mod L) (held a t) ->
+    tab_view (a_view a t) v' tb b rest [x] (pend a t) -> v_op v' = v_op (a_view a t) ->
+    Inv (rm_first tb b g) (setv a t v') tr.
+  Proof.
+    intros Hi Htb Hb Hau Hold Hfl Hl0 Hl1 Hv Hop. pose proof Hi as [Hc Ha].
+    destruct Hv as (V1 & V2 & V3 & V4 & V5 & V6).
+    assert (Hxin : In x (T g tb b)) by (rewrite Hold; now left).
+    assert (Hpx : hx cf x tb mod S (mask g) = b) by (apply (c_placed Hc tb b x Htb Hxin)).
+    assert (Hnd : NoDup (keys (x :: rest))) by (rewrite <- Hold; apply (c_nodup Hc)).
+    unfold keys in Hnd. cbn [map] in Hnd. apply NoDup_cons_iff in Hnd. destruct Hnd as [Hnx Hndr].
+    assert (Hkx : khas (fst x) rest = false).
+    { destruct (khas (fst x) rest) eqn:E; auto. apply khas_in_keys in E. contradiction. }
+    assert (Hox : forall b', khas (fst x) (T g (other tb) b') = false).
+    { intros b'. apply khas_false. intros o Hin. destruct tb as [|[|tb]]; [| |lia]; cbn [other] in Hin.
+      - eapply (c_cross Hc b b' x (fst x, o)); eauto.
+      - eapply (c_cross Hc b' b (fst x, o) x); eauto. }
+    unfold rm_first. fold (T g tb b). rewrite Hold. cbn [tl].
+    eapply Inv_move with (tb := tb) (b := b) (new := rest); [exact Hi| |reflexivity|exact Htb|exact Hb|exact Hop|reflexivity|auto|].
+    - apply (Core_table cf g _ a t v' tb b rest Hc);
+        [reflexivity|reflexivity|reflexivity|reflexivity|exact Htb|exact Hb|exact Hau|exact V1|exact V2|exact V3|exact V4|..].
+      + intros y Hy. apply (c_placed Hc tb b y Htb). rewrite Hold. now right.
+      + exact Hndr.
+      + intros y z b' Hy Hz. assert (Hy' : In y (T g tb b)) by (rewrite Hold; now right).
+        destruct tb as [|[|tb]]; [| |lia]; cbn [other] in Hz.
+        * eapply (c_cross Hc); eauto.
+        * intros E. eapply (c_cross Hc b' b z y); eauto.
+      + rewrite V5. intros y [<-|[]]. destruct Hau as [H0 _]. split; [exact H0|]. split; [exact Hl0|]. split; [exact Hl1|].
+        intros tb' Htb'. destruct (Nat.eqb_spec tb' tb) as [->|E1].
+        * rewrite Hpx, Nat.eqb_refl. cbn [andb]. exact Hkx.
+        * cbn [andb]. assert (tb' = other tb) by (destruct tb as [|[|?]]; destruct tb' as [|[|?]]; cbn; lia). subst tb'. apply Hox.
+      + rewrite V5. cbn. lia.
+      + rewrite V6. apply (c_pend Hc t).
+      + rewrite V6. apply (c_pend2 Hc t).
+      + rewrite V6, V5. intros y Hy. destruct (c_pend2 Hc t) as [_ B]. destruct (B y Hy) as [B1 B2].
+        assert (Hne : fst y <> fst x).
+        { intros E. specialize (B1 tb Htb). unfold hx in B1. rewrite E in B1. unfold hx in Hpx. rewrite Hpx in B1.
+          rewrite khas_false in B1. eapply (B1 (snd x)). rewrite Hold. left. destruct x; reflexivity. }
+        split.
+        * intros tb' Htb'. destruct (Nat.eqb_spec tb' tb) as [->|E1]; destruct (Nat.eqb_spec (hx cf y tb mod S (mask g)) b) as [E2|E2]; cbn [andb];
+            try (apply B1; auto). specialize (B1 tb Htb). rewrite E2, Hold in B1.
+          apply khas_false. intros o Hin. rewrite khas_false in B1. eapply B1. right. exact Hin.
+        * intros z [<-|[]]. auto.
+    - intros y. rewrite V5, V6, Hold, Hfl. cbn [In]. tauto.
+  Qed.
+
+  (** *** resize: the new (empty) tables are installed, the old contents become the pending items *)
+  Lemma Inv_alloc g a tr t n v' :
+    Inv g a tr -> all0 (a_view a t) -> fly a t = [] -> pend a t = [] -> n = 2 * S (mask g) ->
+    v_op v' = v_op (a_view a t) ->
+    v_held v' = held a t -> v_mic v' = mic a t -> v_mask v' = n - 1 -> (forall tb b, v_reg v' tb b = []) ->
+    v_fly v' = [] -> v_pend v' = all_items g ->
+    Inv (set_tabs (set_mask g (n - 1)) [repeat [] n; repeat [] n]) (setv a t v') (tr ++ Conc.tag t [EvAcc KSt o_mask true]).
+  Proof.
+    intros [Hc Ha] Hall Hfl Hpe Hn Hop V1 V2 V3 V4 V5 V6.
+    assert (H0 : has0 (a_view a t)) by (exists 0; apply Hall; exact Hnl).
+    set (g' := set_tabs (set_mask g (n - 1)) [repeat [] n; repeat [] n]).
+    assert (Hc1 : Core g' (setv a t v')) by (apply (Core_alloc cf g a t n v' Hc); auto).
+    split; [exact Hc1|].
     destruct Ha as [Hd|(s & st & H1 & H2 & H3 & H4 & H5)]; [left; now apply dropped_app|right].
     exists s, st. rewrite hist_of_acc. split; auto. split; auto. split.
     - intros t0. rewrite H3. destruct (Nat.eq_dec t0 t) as [->|Hne]; [now rewrite setv_same|now rewrite setv_other].
-    - split; auto. intros x. rewrite H5. symmetry. eapply allp_move; eauto.
+    - split; auto. intros y. rewrite H5. unfold allp.
+      assert (HT : forall tb b, T g' tb b = []) by (intros; unfold CuckooConcInv.T, g'; cbn [tabs set_tabs]; apply get_bkt_empty).
+      setoid_rewrite HT. split.
+      + intros [(tb & b & Htb & Hy)|[(t0 & Hy)|(t0 & Hy)]].
+        * right. right. exists t. rewrite pend_same, V6. apply (all_items_in cf g a y Hc). eauto.
+        * destruct (Nat.eq_dec t0 t) as [->|Hne]; [rewrite Hfl in Hy; destruct Hy|]. right. left. exists t0. now rewrite fly_other.
+        * destruct (Nat.eq_dec t0 t) as [->|Hne]; [rewrite Hpe in Hy; destruct Hy|]. right. right. exists t0. now rewrite pend_other.
+      + intros [(tb & b & Htb & [])|[(t0 & Hy)|(t0 & Hy)]].
+        * destruct (Nat.eq_dec t0 t) as [->|Hne]; [rewrite fly_same, V5 in Hy; destruct Hy|]. rewrite fly_other in Hy by exact Hne. right. left. eauto.
+        * destruct (Nat.eq_dec t0 t) as [->|Hne].
+          -- rewrite pend_same, V6 in Hy. left. apply (all_items_in cf g a y Hc). exact Hy.
+          -- rewrite pend_other in Hy by exact Hne. right. right. eauto.
+  Qed.
+
+
+  (** *** client events *)
+  Import String.
+
+  Lemma hist_inv tr t c k x y o : iop_of c k t y = Some o ->
+    hist_of (tr ++ Conc.tag t [EvCli "inv" (zl [c; k; x; y])]) = hist_of tr ++ [@HInv ISet t o].
+  Proof. intros H. rewrite hist_of_app. f_equal. cbn. unfold z2n. rewrite !Nat2Z.id, H. reflexivity. Qed.
+  Lemma hist_ret tr t c r1 r2 :
+    hist_of (tr ++ Conc.tag t [EvCli "ret" (zl [c; r1; r2])]) = hist_of tr ++ [@HRes ISet t (res_of c r1 r2)].
+  Proof. rewrite hist_of_app. f_equal. cbn. unfold z2n. now rewrite !Nat2Z.id. Qed.
+  Lemma hist_other tr t name args : name <> "inv"%string -> name <> "ret"%string ->
+    hist_of (tr ++ Conc.tag t [EvCli name args]) = hist_of tr.
+  Proof.
+    intros N1 N2. rewrite hist_of_app. cbn. apply String.eqb_neq in N1. apply String.eqb_neq in N2. rewrite N1, N2. now rewrite app_nil_r.
+  Qed.
+
+  Lemma dropped_cli tr t name args : dropped tr -> dropped (tr ++ Conc.tag t [EvCli name args]).
+  Proof. apply dropped_app. Qed.
+
+  (** an event that changes only the status of t's operation and the annotated trace *)
+  Lemma Inv_cli g a tr t (o : status ISet) name args atr' :
+    Inv g a tr ->
+    (forall s st, lp_run lp_init (a_atr a) = Some (s, st) -> (forall t0, st t0 = v_op (a_view a t0)) ->
+        erase (a_atr a) = hist_of tr ->
+        lp_run lp_init atr' = Some (s, Lin.upd st t o) /\ erase atr' = hist_of (tr ++ Conc.tag t [EvCli name args])) ->
+    Inv g (seta (setv a t (with_op (a_view a t) o)) atr') (tr ++ Conc.tag t [EvCli name args]).
+  Proof.
+    intros [Hc Ha] Hatr. split; [apply Core_seta; now apply Core_with_op|].
+    destruct Ha as [Hd|(s & st & H1 & H2 & H3 & H4 & H5)]; [left; now apply dropped_app|right].
+    destruct (Hatr s st H1 H3 H2) as [K1 K2]. exists s, (Lin.upd st t o). cbn [a_atr seta a_view].
+    split; [exact K1|]. split; [exact K2|]. split; [apply st_setv; auto|]. split; [exact H4|].
+    intros x. rewrite H5. symmetry. apply allp_with_op.
+  Qed.
+
+  Lemma Inv_oof g a tr t : Inv g a tr -> Inv g a (tr ++ Conc.tag t [EvCli "outoffuel" []]).
+  Proof.
+    intros [Hc Ha]. split; auto. eapply Abs_keep; eauto; [apply hist_other; discriminate|apply dropped_app].
+  Qed.
+
+  (** resize() falls through without re-inserting the item at the head of the pending list: property C17's defect.
+      The ghost event marks the trace; from here on the abstraction is not claimed any more *)
+  Lemma Inv_drop g a tr t x r :
+    Inv g a tr -> pend a t = x :: r ->
+    Inv g (setv a t (mkTV (v_op (a_view a t)) (held a t) (mic a t) (v_mask (a_view a t)) (v_reg (a_view a t)) (fly a t) r))
+        (tr ++ Conc.tag t [EvCli "dropped" [Z.of_nat (fst x)]]).
+  Proof.
+    intros [Hc Ha] Hp. split.
+    - apply Core_fp; cbn [v_held v_mic v_mask v_reg v_fly v_pend]; auto.
+      + apply (c_fly1 Hc t).
+      + intros y Hy. rewrite Hp. now right.
+      + destruct (c_pend2 Hc t) as [A _]. rewrite Hp in A. unfold keys in A. cbn [map] in A. now apply NoDup_cons_iff in A.
+    - left. exists t, (Z.of_nat (fst x)). apply in_or_app. right. cbn. left. reflexivity.
+  Qed.
+
+  (** *** cell locks, lock_all / unlock_all *)
+  Lemma lk_ok_mk tb i : tb < 2 -> i < L -> lk_ok (0, tb, i).
+  Proof. intros. exists tb, i. auto. Qed.
+
+  Lemma acquired_trans l1 l2 v v1 v2 : acquired l1 v v1 -> acquired l2 v1 v2 ->
+    v_op v2 = v_op v /\ v_held v2 = l2 :: l1 :: v_held v /\ v_mic v2 = MNone /\ v_fly v2 = v_fly v /\ v_pend v2 = v_pend v.
+  Proof. intros (A1 & A2 & A3 & A4 & A5) (B1 & B2 & B3 & B4 & B5). repeat split; congruence. Qed.
+
+  Lemma extends_trans l v v1 v2 : acquired l v v1 -> extends v v1 -> extends v1 v2 -> extends v v2.
+  Proof.
+    intros (A1 & A2 & A3 & A4 & A5) [E1 E2] [F1 F2].
+    assert (H0 : has0 v -> has0 v1) by (intros (i & Hi); exists i; rewrite A2; now right).
+    assert (Hau : forall tb b, auth v tb b -> auth v1 tb b).
+    { intros tb b [(i & Hi) H]. split; [exists i; rewrite A2; now right|]. destruct H as [H|H]; [left; rewrite A2; now right|right]. intros j Hj. rewrite A2. right. auto. }
+    split.
+    - intros H. rewrite F1, E1; auto.
+    - intros tb b Htb H. rewrite F2, E2; auto.
+  Qed.
+
+  (** scoped_cell_lock *)
+  Lemma safe_cell_lock t hh0 hh1 (Q : cells -> tview -> Prop) v :
+    v_mic v = MNone ->
+    (forall v', v_op v' = v_op v -> v_held v' = (0, 1, hh1 mod L) :: (0, 0, hh0 mod L) :: v_held v -> v_mic v' = MNone ->
+        v_fly v' = v_fly v -> v_pend v' = v_pend v -> extends v v' -> Q ((0, 0, hh0 mod L), (0, 1, hh1 mod L)) v') ->
+    safe t (cell_lock (c_pol cf) (c_fuel cf) L (S t) hh0 hh1) v (optQ Q).
+  Proof.
+    intros Hm HQ. rewrite Hpol. cbn [cell_lock].
+    assert (Hl0 : lk_ok (0, 0, hh0 mod L)) by (apply lk_ok_mk; [lia|apply Nat.mod_upper_bound; lia]).
+    assert (Hl1 : lk_ok (0, 1, hh1 mod L)) by (apply lk_ok_mk; [lia|apply Nat.mod_upper_bound; lia]).
+    apply safe_bindo. apply safe_r_lock; auto. intros v1 Ha1 He1.
+    apply safe_bindo. apply safe_r_lock; auto; [apply Ha1|]. intros v2 Ha2 He2. apply safe_oret.
+    destruct (acquired_trans _ _ v v1 v2 Ha1 Ha2) as (B1 & B2 & B3 & B4 & B5).
+    apply HQ; auto. eapply extends_trans; eauto.
+  Qed.
+
+  (** the two unlocks of a scoped_cell_lock destructor *)
+  Definition can_release (v : tview) (l : lk) : Prop :=
+    cnt (v_held v) l = 1 ->
+      (forall x, In x (v_fly v) -> l <> (0, 0, h0 cf x mod L) /\ l <> (0, 1, h1 cf x mod L) /\ exists i, (0, 0, i) <> l /\ In (0, 0, i) (v_held v)) /\
+      (v_pend v <> [] -> forall i, l <> (0, 0, i)).
+
+  Lemma safe_unlock2 t l0 l1 (Q : tview -> Prop) v :
+    v_mic v = MNone -> In l0 (v_held v) -> In l1 (rem1 l0 (v_held v)) ->
+    can_release v l0 -> can_release (vrel v (rem1 l0 (v_held v)) MNone) l1 ->
+    Q (vrel v (rem1 l1 (rem1 l0 (v_held v))) MNone) ->
+    safe t (unlock2 (l0, l1)) v (fun _ => Q).
+  Proof.
+    intros Hm H0 H1 C0 C1 HQ. unfold unlock2. cbn [fst snd]. apply safe_thenu.
+    apply safe_r_unlock; auto. apply safe_r_unlock; auto.
+  Qed.
+
+  Lemma safe_lock_all t (Q : tview -> Prop) : forall n i v, i + n = L -> v_mic v = MNone ->
+    (forall v', v_op v' = v_op v -> v_mic v' = MNone -> v_fly v' = v_fly v -> v_pend v' = v_pend v ->
+        (forall l, In l (v_held v) -> In l (v_held v')) -> (forall j, i <= j < L -> In (0, 0, j) (v_held v')) ->
+        (forall l, cnt (v_held v') l = cnt (v_held v) l + (match l with (0, 0, j) => if (Nat.leb i j && Nat.ltb j L)%bool then 1 else 0 | _ => 0 end)) ->
+        Q v') ->
+    safe t (lock_all (c_fuel cf) (S t) 0 n i) v (optQ (fun _ => Q)).
+  Proof.
+    induction n as [|n IH]; intros i v Hn Hm HQ; cbn [lock_all].
+    - apply safe_oret. apply HQ; auto; [intros j Hj; lia|].
+      intros [[gg tb] j]. destruct gg; [|lia]. destruct tb; [|lia].
+      destruct (Nat.leb_spec i j); destruct (Nat.ltb_spec j L); cbn; lia.
+    - apply safe_bindo. apply safe_r_lock; auto; [apply lk_ok_mk; lia|].
+      intros v1 (A1 & A2 & A3 & A4 & A5) He1. apply IH; [lia|exact A3|].
+      intros v' B1 B2 B3 B4 B5 B6 B7. apply HQ; try congruence.
+      + intros l Hl. apply B5. rewrite A2. now right.
+      + intros j Hj. destruct (Nat.eq_dec j i) as [->|Hne]; [apply B5; rewrite A2; now left|apply B6; lia].
+      + intros l. rewrite B7, A2. destruct (lk_dec l (0, 0, i)) as [->|Hne].
+        * rewrite cnt_cons_same. destruct (Nat.leb_spec (S i) i); destruct (Nat.leb_spec i i); destruct (Nat.ltb_spec i L); cbn; lia.
+        * rewrite cnt_cons_other by auto. destruct l as [[gg tb] j]. destruct gg; [|lia]. destruct tb; [|lia].
+          assert (j <> i) by congruence.
+          destruct (Nat.leb_spec (S i) j); destruct (Nat.leb_spec i j); destruct (Nat.ltb_spec j L); cbn; lia.
+  Qed.
+
+
+  (** *** what a view knows inside the critical section of key k *)
+  Definition l0k (k : nat) : lk := (0, 0, fst (hashes cf k) mod L).
+  Definition l1k (k : nat) : lk := (0, 1, snd (hashes cf k) mod L).
+  Definition vb (v : tview) (k tb : nat) : nat := hsel (hashes cf k) tb mod S (v_mask v).
+  Definition vlookup (v : tview) (k : nat) : option item :=
+    match kget k (v_reg v 0 (vb v k 0)) with Some x => Some x | None => kget k (v_reg v 1 (vb v k 1)) end.
+
+  Definition csview (v : tview) (k : nat) : Prop :=
+    In (l0k k) (v_held v) /\ In (l1k k) (v_held v) /\ v_mic v = MNone /\ v_fly v = [] /\ v_pend v = [].
+
+  Lemma has0_l0k v k : In (l0k k) (v_held v) -> has0 v.
+  Proof. intros H. eexists. exact H. Qed.
+
+  Lemma auth_of_locks g a tr t k tb : Inv g a tr -> In (l0k k) (held a t) -> In (l1k k) (held a t) -> tb < 2 ->
+    auth (a_view a t) tb (bk g k tb).
+  Proof.
+    intros [Hc _] H0 H1 Htb. split; [eexists; exact H0|]. left. unfold bk. rewrite (stripe_mod cf g a _ Hc).
+    destruct tb as [|[|tb]]; [exact H0|exact H1|lia].
+  Qed.
+
+  Lemma in_cs_of_view g a tr t k : Inv g a tr -> csview (a_view a t) k -> in_cs g a t k.
+  Proof.
+    intros Hi (H0 & H1 & _ & Hf & Hp). split; [|split; [exact Hf|exact Hp]].
+    intros tb Htb. eapply auth_of_locks; eauto.
+  Qed.
+
+  Lemma view_facts g a tr t k : Inv g a tr -> csview (a_view a t) k ->
+    (forall tb, tb < 2 -> bk g k tb = vb (a_view a t) k tb /\ T g tb (bk g k tb) = v_reg (a_view a t) tb (vb (a_view a t) k tb)) /\
+    lookup g k = vlookup (a_view a t) k.
+  Proof.
+    intros Hi Hcs. pose proof Hi as [Hc _]. pose proof (in_cs_of_view g a tr t k Hi Hcs) as (Hau & _ & _).
+    destruct Hcs as (H0 & _).
+    assert (Hm : mask g = v_mask (a_view a t)) by (apply (c_mask Hc); eexists; exact H0).
+    assert (Hb : forall tb, bk g k tb = vb (a_view a t) k tb) by (intros; unfold bk, vb; now rewrite Hm).
+    assert (Hr : forall tb, tb < 2 -> T g tb (bk g k tb) = v_reg (a_view a t) tb (vb (a_view a t) k tb)).
+    { intros tb Htb. rewrite <- Hb. apply (c_reg Hc t tb _ Htb). apply Hau; auto. }
+    split; [intros tb Htb; split; auto|].
+    unfold lookup, vlookup. rewrite (Hr 0), (Hr 1) by lia. reflexivity.
+  Qed.
+
+  (** the specification steps decided by a lookup *)
+  Lemma khas_kget k s : khas k s = match kget k s with Some _ => true | None => false end.
+  Proof. destruct (kget k s) eqn:E; [|now apply kget_none]. apply kget_some in E. destruct E as [H1 H2]. apply khas_true. exists (snd i). rewrite <- H2. destruct i; exact H1. Qed.
+
+
+  (** *** contains(): the two probes, with an optional linearization point at the deciding probe *)
+  Definition lin_view (v : tview) (o : iop) (d : option res) : tview :=
+    match d with Some r => with_op v (Linearized (o : Op ISet) (r : Res ISet)) | None => v end.
+
+  Lemma bkt_get_kget k b : bkt_get k b = kget k b.
+  Proof. reflexivity. Qed.
+
+  Lemma csview_lin v k o d : csview v k -> csview (lin_view v o d) k.
+  Proof. destruct d; auto. Qed.
+
+  Definition contains_gen {R} (hh : nat * nat) (k : nat) (cont : nat -> nat -> prog R) : prog R :=
+    Act (a_probe 0 (fst hh) k) (fun p0 =>
+      if Nat.eqb (vn p0) 1 then cont 0 (vm p0)
+      else Act (a_probe 1 (snd hh) k) (fun p1 => if Nat.eqb (vn p1) 1 then cont 1 (vm p1) else cont 2 0)).
+  Lemma contains_is_gen hh k cont : contains hh k cont = contains_gen hh k cont.
+  Proof. reflexivity. Qed.
+
+  Lemma safe_contains {R} t k (o : iop) (dec_found : item -> option res) (dec_none : option res)
+        (cont : nat -> nat -> prog R) (Q : R -> tview -> Prop) v :
+    csview v k -> v_op v = Pending (o : Op ISet) ->
+    (forall x r, dec_found x = Some r -> forall s, kget k s = Some x -> istep s o = (s, r)) ->
+    (forall r, dec_none = Some r -> forall s, kget k s = None -> istep s o = (s, r)) ->
+    (forall tb x, tb < 2 -> vlookup v k = Some x -> kget k (v_reg v tb (vb v k tb)) = Some x ->
+        safe t (cont tb (snd x)) (lin_view v o (dec_found x)) Q) ->
+    (vlookup v k = None -> safe t (cont 2 0) (lin_view v o dec_none) Q) ->
+    safe t (contains_gen (hashes cf k) k cont) v Q.
+  Proof.
+    intros Hcs Hop Hdf Hdn Hfound Hnone. unfold contains_gen.
+    (* a probe step of table tb that finds x, or finds nothing *)
+    assert (Step : forall g a tr (d : option res) kk ob ok, Inv g a tr -> a_view a t = v ->
+              (forall r, d = Some r -> forall s, kget k s = lookup g k -> istep s o = (s, r)) ->
+              exists a', Inv g a' (tr ++ Conc.tag t [EvAcc kk ob ok]) /\ Conc.frame view t a a' /\ a_view a' t = lin_view v o d).
+    { intros g a tr d kk ob ok Hi Hv Hd. destruct d as [r|]; cbn [lin_view].
+      - eexists. split; [apply (Inv_lp_read g g a tr t k o r kk ob ok Hi); auto|].
+        + now rewrite Hv.
+        + eapply in_cs_of_view; eauto. now rewrite Hv.
+        + split; [intros t' Hne; unfold view; cbn [a_view seta]; now apply setv_other|].
+          cbn [a_view seta]. rewrite setv_same, Hv. reflexivity.
+      - exists a. split; [eapply Inv_acc; eauto|]. split; [apply frame_refl|exact Hv]. }
+    cbn [Conc.safe]. intros g a tr Hi Hv. unfold view in Hv.
+    assert (Hcs' : csview (a_view a t) k) by now rewrite Hv.
+    destruct (view_facts g a tr t k Hi Hcs') as [Hb Hl]. rewrite Hv in Hb, Hl.
+    destruct (Hb 0 ltac:(lia)) as [Hb0 Hr0].
+    assert (EE : bkt_get k (get_bkt (tabs g) 0 (bidx g (fst (hashes cf k)))) = kget k (v_reg v 0 (vb v k 0))) by (rewrite <- Hr0; reflexivity).
+    unfold a_probe. rewrite EE.
+    destruct (kget k (v_reg v 0 (vb v k 0))) as [x|] eqn:E0; cbn [fst snd].
+    - (* found in table 0 *)
+      assert (Hvl : vlookup v k = Some x) by (unfold vlookup; now rewrite E0).
+      destruct (Step g a tr (dec_found x) KLd o_mask true Hi Hv) as (a' & K1 & K2 & K3).
+      { intros r Hr s Hs. apply (Hdf x r Hr). now rewrite Hs, Hl. }
+      exists a'. split; [exact K1|]. split; [exact K2|]. unfold view. rewrite K3. cbn [vn vm Nat.eqb].
+      apply (Hfound 0 x); auto.
+    - (* not found in table 0: second probe *)
+      exists a. split; [eapply Inv_acc; eauto|]. split; [apply frame_refl|]. unfold view. rewrite Hv. cbn [vn vnat Nat.eqb Conc.safe].
+      clear g a tr Hi Hv Hcs' Hb Hl Hb0 Hr0 EE. intros g a tr Hi Hv. unfold view in Hv.
+      assert (Hcs' : csview (a_view a t) k) by now rewrite Hv.
+      destruct (view_facts g a tr t k Hi Hcs') as [Hb Hl]. rewrite Hv in Hb, Hl.
+      destruct (Hb 1 ltac:(lia)) as [Hb1 Hr1].
+      assert (EE : bkt_get k (get_bkt (tabs g) 1 (bidx g (snd (hashes cf k)))) = kget k (v_reg v 1 (vb v k 1))) by (rewrite <- Hr1; reflexivity).
+      unfold a_probe. rewrite EE.
+      destruct (kget k (v_reg v 1 (vb v k 1))) as [x|] eqn:E1; cbn [fst snd].
+      + assert (Hvl : vlookup v k = Some x) by (unfold vlookup; now rewrite E0, E1).
+        destruct (Step g a tr (dec_found x) KLd o_mask true Hi Hv) as (a' & K1 & K2 & K3).
+        { intros r Hr s Hs. apply (Hdf x r Hr). now rewrite Hs, Hl. }
+        exists a'. split; [exact K1|]. split; [exact K2|]. unfold view. rewrite K3. cbn [vn vm Nat.eqb].
+        apply (Hfound 1 x); auto.
+      + assert (Hvl : vlookup v k = None) by (unfold vlookup; now rewrite E0, E1).
+        destruct (Step g a tr dec_none KLd o_mask true Hi Hv) as (a' & K1 & K2 & K3).
+        { intros r Hr s Hs. apply (Hdn r Hr). now rewrite Hs, Hl. }
+        exists a'. split; [exact K1|]. split; [exact K2|]. unfold view. rewrite K3. cbn [vn vnat Nat.eqb].
+        apply Hnone; auto.
+  Qed.
+
+
+  (** *** client operations: codes, results *)
+  Definition iop_of_cop (o : cop) (k t : nat) : iop :=
+    match o with
+    | CInsert => IInsert k t
+    | CUpdate allow => IUpdate k t allow
+    | CUnlink => IUnlink k t
+    | CErase => IErase k
+    | CFind => IFind k
+    end.
+  Definition res_of_cop (o : cop) (r1 r2 : nat) : res :=
+    match o with CUpdate _ => RPair (n2b r1) (n2b r2) | _ => RBool (n2b r1) end.
+
+  Lemma iop_of_ccode c k t b co : op_of_code c b = Some co -> iop_of c k t b = Some (iop_of_cop co k t).
+  Proof.
+    unfold op_of_code, iop_of.
+    do 15 (destruct c as [|c]; [intros H; inversion H; subst; reflexivity || discriminate|]). discriminate.
+  Qed.
+  Lemma res_of_ccode c k b co r1 r2 : op_of_code c b = Some co -> res_of c r1 (r2_of_code c k r1 r2) = res_of_cop co r1 r2.
+  Proof.
+    unfold op_of_code, res_of, r2_of_code.
+    do 15 (destruct c as [|c]; [intros H; inversion H; subst; reflexivity || discriminate|]). discriminate.
+  Qed.
+
+  Lemma l0_neq_l1 k : l0k k <> l1k k.
+  Proof. unfold l0k, l1k. congruence. Qed.
+
+  Lemma rem1_head l H : rem1 l (l :: H) = H.
+  Proof. cbn. destruct (lk_dec l l); congruence. Qed.
+  Lemma rem1_skip l x H : x <> l -> rem1 l (x :: H) = x :: rem1 l H.
+  Proof. intros E. cbn. destruct (lk_dec x l); congruence. Qed.
+
+  (** the locks of a scoped_cell_lock are released: back to the locks held before *)
+  Lemma safe_cs_exit {R} t k (Q : R -> tview -> Prop) (p : prog R) v H :
+    v_held v = l1k k :: l0k k :: H -> v_mic v = MNone -> v_fly v = [] -> v_pend v = [] ->
+    (forall v', v_op v' = v_op v -> v_held v' = H -> v_mic v' = MNone -> v_fly v' = [] -> v_pend v' = [] -> safe t p v' Q) ->
+    safe t (thenu (unlock2 (l0k k, l1k k)) p) v Q.
+  Proof.
+    intros Hh Hm Hf Hp Hk. apply safe_thenu.
+    assert (E0 : rem1 (l0k k) (v_held v) = l1k k :: H).
+    { rewrite Hh, rem1_skip by (apply not_eq_sym; apply l0_neq_l1). now rewrite rem1_head. }
+    apply safe_unlock2; auto.
+    - rewrite Hh. right. now left.
+    - rewrite E0. now left.
+    - intros _. split; [rewrite Hf; intros x []|rewrite Hp; congruence].
+    - intros _. cbn [vrel v_fly v_pend]. split; [rewrite Hf; intros x []|rewrite Hp; congruence].
+    - apply Hk; cbn [vrel v_op v_held v_mic v_fly v_pend]; auto. rewrite E0. apply rem1_head.
+  Qed.
+
+  (** the response event *)
+  Lemma safe_fin t c k b co r1 r2 v :
+    op_of_code c b = Some co ->
+    v_op v = Linearized (iop_of_cop co k t : Op ISet) (res_of_cop co r1 r2 : Res ISet) ->
+    safe t (Emit [EvCli "ret" (zl [c; r1; r2_of_code c k r1 r2])] (oret tt)) v
+         (optQ (fun _ v' => v' = with_op v Lin.Idle)).
+  Proof.
+    intros Hoc Hop. cbn [Conc.safe]. intros g a tr Hi Hv. unfold view in Hv.
+    rewrite <- (res_of_ccode c k b co r1 r2 Hoc) in Hop.
+    eexists. split; [apply (Inv_cli g a tr t Lin.Idle "ret" _ (a_atr a ++ [ARes t (res_of c r1 (r2_of_code c k r1 r2) : Res ISet)]) Hi)|].
+    - intros s st H1 H3 H2. split.
+      + eapply lp_ext; [exact H1|]. cbn [lp_step]. rewrite H3, Hv, Hop.
+        assert (E : res_eqb ISet (res_of c r1 (r2_of_code c k r1 r2)) (res_of c r1 (r2_of_code c k r1 r2)) = true) by (apply res_eqb_spec; reflexivity).
+        rewrite E. reflexivity.
+      + rewrite erase_app, H2, hist_ret. reflexivity.
+    - split.
+      + intros t' Hne. unfold view. cbn [a_view seta]. now apply setv_other.
+      + unfold view. cbn [a_view seta]. rewrite setv_same, Hv. apply safe_oret. reflexivity.
+  Qed.
+
+  (** find / contains *)
+  Lemma istep_find_some k s x : kget k s = Some x -> istep s (IFind k) = (s, RBool true).
+  Proof. intros E. cbn. now rewrite khas_kget, E. Qed.
+  Lemma istep_find_none k s : kget k s = None -> istep s (IFind k) = (s, RBool false).
+  Proof. intros E. cbn. now rewrite khas_kget, E. Qed.
+
+  Definition idle_view (v v' : tview) : Prop :=
+    v_op v' = Lin.Idle /\ v_held v' = v_held v /\ v_mic v' = MNone /\ v_fly v' = [] /\ v_pend v' = [].
+
+  Lemma safe_find t c k b v :
+    op_of_code c b = Some CFind -> v_op v = Pending (IFind k : Op ISet) -> v_mic v = MNone -> v_fly v = [] -> v_pend v = [] ->
+    safe t (bindo (cell_lock (c_pol cf) (c_fuel cf) L (S t) (fst (hashes cf k)) (snd (hashes cf k))) (fun cl =>
+             bindo (contains (hashes cf k) k (fun tb _ => thenu (unlock2 cl) (oret (b2n (Nat.ltb tb 2), 0))))
+                   (fun r => Emit [EvCli "ret" (zl [c; fst r; r2_of_code c k (fst r) (snd r)])] (oret tt)))) v
+         (optQ (fun _ v' => idle_view v v')).
+  Proof.
+    intros Hoc Hop Hm Hf Hp. apply safe_bindo. apply safe_cell_lock; auto.
+    intros v1 A1 A2 A3 A4 A5 _. fold (l0k k) (l1k k) in *. apply safe_bindo. rewrite contains_is_gen.
+    assert (Hcs : csview v1 k).
+    { split; [rewrite A2; right; now left|]. split; [rewrite A2; now left|]. split; auto. split; congruence. }
+    assert (Hex : forall r1 vv, csview vv k -> v_held vv = v_held v1 -> v_op vv = Linearized (IFind k : Op ISet) (RBool (n2b r1) : Res ISet) ->
+              safe t (thenu (unlock2 (l0k k, l1k k)) (oret (r1, 0))) vv
+                (optQ (fun r l' => safe t (Emit [EvCli "ret" (zl [c; fst r; r2_of_code c k (fst r) (snd r)])] (oret tt)) l' (optQ (fun _ v' => idle_view v v'))))).
+    { intros r1 vv (C0 & C1 & C2 & C3 & C4) Hh Hopv. eapply safe_cs_exit; eauto; [rewrite Hh; exact A2|].
+      intros v' B1 B2 B3 B4 B5. apply safe_oret. cbn [fst snd].
+      eapply Conc.safe_weaken; [|eapply (safe_fin t c k b CFind r1 0 v' Hoc)]; [|rewrite B1; exact Hopv].
+      intros [u|] l' Hl; cbn in *; auto. subst l'. repeat split; auto. }
+    apply (safe_contains t k (IFind k) (fun _ => Some (RBool true)) (Some (RBool false)) _ _ v1 Hcs); [congruence| | | |].
+    - intros x r E s Hs. inversion E; subst. eapply istep_find_some; eauto.
+    - intros r E s Hs. inversion E; subst. now apply istep_find_none.
+    - intros tb x Htb _ _. apply Nat.ltb_lt in Htb. rewrite Htb. cbn [b2n lin_view].
+      apply (Hex 1); [apply (csview_lin v1 k (IFind k) (Some (RBool true))); exact Hcs|reflexivity|reflexivity].
+    - intros _. cbn [Nat.ltb Nat.leb b2n lin_view].
+      apply (Hex 0); [apply (csview_lin v1 k (IFind k) (Some (RBool false))); exact Hcs|reflexivity|reflexivity].
+  Qed.
+
+
+  (** erase / unlink *)
+  Definition mine_of (co : cop) (t own : nat) : bool := match co with CUnlink => Nat.eqb own t | _ => true end.
+
+  Lemma istep_erase_none co k t s : (co = CErase \/ co = CUnlink) -> kget k s = None -> istep s (iop_of_cop co k t) = (s, RBool false).
+  Proof. intros [->| ->] E; cbn; [rewrite khas_kget, E|rewrite E]; reflexivity. Qed.
+  Lemma istep_unlink_other k t s x : kget k s = Some x -> Nat.eqb (snd x) t = false -> istep s (IUnlink k t) = (s, RBool false).
+  Proof. intros E N. cbn. now rewrite E, N. Qed.
+  Lemma istep_erase_some co k t s x : (co = CErase \/ co = CUnlink) -> kget k s = Some x -> mine_of co t (snd x) = true ->
+    istep s (iop_of_cop co k t) = (kdel k s, RBool true).
+  Proof. intros [->| ->] E M; cbn in *; [rewrite khas_kget, E|rewrite E, M]; reflexivity. Qed.
+
+  Lemma safe_erase t c k b co v :
+    op_of_code c b = Some co -> (co = CErase \/ co = CUnlink) ->
+    v_op v = Pending (iop_of_cop co k t : Op ISet) -> v_mic v = MNone -> v_fly v = [] -> v_pend v = [] ->
+    safe t (bindo (cell_lock (c_pol cf) (c_fuel cf) L (S t) (fst (hashes cf k)) (snd (hashes cf k))) (fun cl =>
+             bindo (contains (hashes cf k) k (fun tb own =>
+                      if (Nat.ltb tb 2 && mine_of co t own)%bool
+                      then Act (a_remove tb (hsel (hashes cf k) tb) k) (fun _ => Act a_count_fas (fun _ => thenu (unlock2 cl) (oret (1, 0))))
+                      else thenu (unlock2 cl) (oret (0, 0))))
+                   (fun r => Emit [EvCli "ret" (zl [c; fst r; r2_of_code c k (fst r) (snd r)])] (oret tt)))) v
+         (optQ (fun _ v' => idle_view v v')).
+  Proof.
+    intros Hoc Hco Hop Hm Hf Hp. apply safe_bindo. apply safe_cell_lock; auto.
+    intros v1 A1 A2 A3 A4 A5 _. fold (l0k k) (l1k k) in *. apply safe_bindo. rewrite contains_is_gen.
+    assert (Hcs : csview v1 k).
+    { split; [rewrite A2; right; now left|]. split; [rewrite A2; now left|]. split; auto. split; congruence. }
+    set (o := iop_of_cop co k t).
+    assert (Hrc : forall r1, res_of_cop co r1 0 = RBool (n2b r1)) by (intros; destruct Hco as [->| ->]; reflexivity).
+    assert (Hex : forall r1 vv, csview vv k -> v_held vv = v_held v1 -> v_op vv = Linearized (o : Op ISet) (RBool (n2b r1) : Res ISet) ->
+              safe t (thenu (unlock2 (l0k k, l1k k)) (oret (r1, 0))) vv
+                (optQ (fun r l' => safe t (Emit [EvCli "ret" (zl [c; fst r; r2_of_code c k (fst r) (snd r)])] (oret tt)) l' (optQ (fun _ v' => idle_view v v'))))).
+    { intros r1 vv (C0 & C1 & C2 & C3 & C4) Hh Hopv. eapply safe_cs_exit; eauto; [rewrite Hh; exact A2|].
+      intros v' B1 B2 B3 B4 B5. apply safe_oret. cbn [fst snd].
+      eapply Conc.safe_weaken; [|eapply (safe_fin t c k b co r1 0 v' Hoc)]; [|rewrite B1, Hrc; exact Hopv].
+      intros [u|] l' Hl; cbn in *; auto. subst l'. repeat split; auto. }
+    apply (safe_contains t k o (fun x => if mine_of co t (snd x) then None else Some (RBool false)) (Some (RBool false)) _ _ v1 Hcs);
+      [rewrite A1; exact Hop| | | |].
+    - intros x r E s Hs. destruct (mine_of co t (snd x)) eqn:M; [discriminate|]. inversion E; subst r.
+      destruct Hco as [->| ->]; [discriminate|]. cbn in M. unfold o. cbn [iop_of_cop]. eapply istep_unlink_other; eauto.
+    - intros r E s Hs. inversion E; subst r. now apply istep_erase_none.
+    - intros tb x Htb Hvl Hkg. pose proof Htb as Htb'. apply Nat.ltb_lt in Htb'. rewrite Htb'. cbn [andb].
+      destruct (mine_of co t (snd x)) eqn:M; cbn [lin_view].
+      + (* the item is removed: linearization point *)
+        cbn [Conc.safe]. intros g a tr Hi Hv. unfold view in Hv.
+        assert (Hcs' : csview (a_view a t) k) by now rewrite Hv.
+        destruct (view_facts g a tr t k Hi Hcs') as [Hb Hl]. rewrite Hv in Hb, Hl. destruct (Hb tb Htb) as [Hbt Hrt].
+        assert (Hx : In x (T g tb (bk g k tb))) by (rewrite Hrt; apply kget_some in Hkg; tauto).
+        set (v2 := with_op (with_tab v1 tb (bk g k tb) (kdel k (T g tb (bk g k tb))) [] []) (Linearized (o : Op ISet) (RBool true : Res ISet))).
+        exists (seta (setv a t v2) (a_atr a ++ [ALin t])). split; [|split].
+        * apply (Inv_lp_remove g a tr t v2 k tb x o (RBool true) KLd o_mask true Hi);
+            [eapply in_cs_of_view; eauto|exact Htb|rewrite Hl; exact Hvl|exact Hx|rewrite Hv, A1; exact Hop|reflexivity| |].
+          -- rewrite Hv. unfold v2. repeat split.
+          -- intros s Hs. unfold o. eapply istep_erase_some; eauto.
+        * intros t' Hne. unfold view. cbn [a_view seta]. now apply setv_other.
+        * unfold view. cbn [a_view seta]. rewrite setv_same.
+          assert (Hcs2 : csview v2 k) by (destruct Hcs as (C0 & C1 & C2 & C3 & C4); unfold v2; repeat split; cbn; auto).
+          cbn [Conc.safe]. intros g1 a1 tr1 Hi1 Hv1. unfold view in Hv1. exists a1.
+          split; [eapply Inv_acc; eauto|]. split; [apply frame_refl|]. unfold view. rewrite Hv1.
+          apply (Hex 1 v2); auto.
+      + apply (Hex 0); [exact Hcs|reflexivity|reflexivity].
+    - intros _. cbn [Nat.ltb Nat.leb andb lin_view]. apply (Hex 0); [exact Hcs|reflexivity|reflexivity].
+  Qed.
+
+
+  (** *** relocate *)
+  (** the state a thread is in between critical sections (possibly inside a resize): locks [H], nothing in flight *)
+  Definition rest_view (v : tview) (H : list lk) : Prop :=
+    v_held v = H /\ v_mic v = MNone /\ v_fly v = [] /\ (v_pend v <> [] -> forall i, i < L -> In (0, 0, i) H).
+  Definition same_rest (v v' : tview) : Prop :=
+    v_op v' = v_op v /\ v_held v' = v_held v /\ v_mic v' = MNone /\ v_fly v' = [] /\ v_pend v' = v_pend v.
+
+  Lemma cnt_ge2 (H : list lk) l x : In l H -> cnt (x :: l :: H) l <> 1.
+  Proof.
+    intros Hin. apply in_cnt in Hin. cbn. destruct (lk_dec l l); [|congruence]. destruct (lk_dec x l); lia.
+  Qed.
+
+  (** release of a pair of cell locks taken on top of [H] when nothing is in flight *)
+  Lemma safe_pair_exit {R} t la lb (Q : R -> tview -> Prop) (p : prog R) v H :
+    la <> lb -> (exists i, la = (0, 0, i) /\ i < L) -> (exists i, lb = (0, 1, i)) ->
+    v_held v = lb :: la :: H -> v_mic v = MNone -> v_fly v = [] -> (v_pend v <> [] -> forall i, i < L -> In (0, 0, i) H) ->
+    (forall v', v_op v' = v_op v -> v_held v' = H -> v_mic v' = MNone -> v_fly v' = [] -> v_pend v' = v_pend v -> safe t p v' Q) ->
+    safe t (thenu (unlock2 (la, lb)) p) v Q.
+  Proof.
+    intros Hne (ia & Ea & Hia) (ib & Eb) Hh Hm Hf Hp Hk. apply safe_thenu.
+    assert (E0 : rem1 la (v_held v) = lb :: H).
+    { rewrite Hh, rem1_skip by (apply not_eq_sym; exact Hne). now rewrite rem1_head. }
+    apply safe_unlock2; auto.
+    - rewrite Hh. right. now left.
+    - rewrite E0. now left.
+    - intros C1. split; [rewrite Hf; intros x []|]. intros Hpn i E. exfalso. rewrite Hh in C1.
+      subst la. inversion E; subst i. eapply cnt_ge2; [|exact C1]. apply Hp; auto.
+    - intros _. cbn [vrel v_fly v_pend]. split; [rewrite Hf; intros x []|]. intros _ i E. subst lb. discriminate.
+    - apply Hk; cbn [vrel v_op v_held v_mic v_fly v_pend]; auto. rewrite E0. apply rem1_head.
+  Qed.
+
+
+  Lemma in_rest_locks (H : list lk) l la lb : In l (lb :: la :: H) <-> l = lb \/ l = la \/ In l H.
+  Proof. cbn. intuition. Qed.
+
+  Lemma mod_stripe hh m e : 0 < e -> S m = L * e -> (hh mod S m) mod L = hh mod L.
+  Proof.
+    intros He Hd. rewrite Hd. clear Hd.
+    assert (E : L <> 0) by (intros E0; rewrite E0 in Hnl; inversion Hnl).
+    assert (E' : e <> 0) by (intros E0; rewrite E0 in He; inversion He).
+    rewrite Nat.mod_mul_r by assumption. rewrite (Nat.mul_comm L). rewrite Nat.mod_add by assumption. apply Nat.mod_mod. assumption.
+  Qed.
+
+  (** placing the victim (in flight) into a probe set of its own: relocation steps F, P and the restore *)
+  Lemma Inv_place_fly g a tr t x tb new kk ob ok :
+    Inv g a tr -> fly a t = [x] -> tb < 2 ->
+    (forall y, In y new <-> y = x \/ In y (T g tb (bk g (fst x) tb))) ->
+    (khas (fst x) (T g tb (bk g (fst x) tb)) = false -> NoDup (keys new)) ->
+    Inv (set_tabs g (set_bkt (tabs g) tb (bk g (fst x) tb) new))
+        (setv a t (with_tab (a_view a t) tb (bk g (fst x) tb) new [] (pend a t))) (tr ++ Conc.tag t [EvAcc kk ob ok]).
+  Proof.
+    intros Hi Hf Htb Hnew Hnd. pose proof Hi as [Hc _].
+    assert (Hx : In x (fly a t)) by (rewrite Hf; now left).
+    destruct (c_fly Hc t x Hx) as (A0 & A1 & A2 & A3).
+    apply (Inv_insert_move g a tr t _ x tb new [] (pend a t) kk ob ok Hi Htb).
+    - eapply fly_auth; eauto.
+    - exact A3.
+    - apply tab_view_with_tab.
+    - reflexivity.
+    - exact Hnew.
+    - apply Hnd. apply A3; auto.
+    - intros y [].
+    - cbn. lia.
+    - intros y Hy. split; auto. destruct (c_pend2 Hc t) as [_ B]. destruct (B y Hy) as [_ B2]. apply not_eq_sym. apply B2. exact Hx.
+    - apply (c_pend2 Hc t).
+    - auto.
+    - intros y. rewrite Hf. cbn [In]. intuition.
+  Qed.
+
+  Definition Qreloc (v : tview) : (nat * (nat * (nat * nat))) -> tview -> Prop := fun r v' => fst (snd r) < 2 /\ same_rest v v'.
+
+  (** after the victim [x] left probe set (tb, b): put it somewhere, release everything *)
+  Lemma safe_reloc_place t tb b x (goal : nat * nat) v0 v H (ra rb rc : nat * (nat * (nat * nat))) :
+    tb < 2 -> fst (snd ra) < 2 -> fst (snd rb) < 2 -> fst (snd rc) < 2 ->
+    let vh := hashes cf (key_of x) in
+    let lg0 := (0, 0, fst goal mod L) in let lg1 := (0, 1, snd goal mod L) in
+    let lv0 := (0, 0, fst vh mod L) in let lv1 := (0, 1, snd vh mod L) in
+    v_op v = v_op v0 -> v_held v = lv1 :: lv0 :: lg1 :: lg0 :: H -> v_mic v = MNone -> v_fly v = [x] -> v_pend v = v_pend v0 ->
+    v_held v0 = H -> (v_pend v0 <> [] -> forall i, i < L -> In (0, 0, i) H) ->
+    hsel vh tb mod S (v_mask v) = b ->
+    safe t (Act (a_place (c_ord cf) (other tb) (hsel vh (other tb)) x (c_th cf)) (fun v1 =>
+              if Nat.eqb (vn v1) 1 then thenu (unlock2 (lv0, lv1)) (thenu (unlock2 (lg0, lg1)) (oret ra))
+              else Act (a_reloc_partial (c_ord cf) (other tb) (hsel vh (other tb)) x (c_ps cf) tb b) (fun v2 =>
+                     thenu (unlock2 (lv0, lv1)) (thenu (unlock2 (lg0, lg1)) (if Nat.eqb (vn v2) 1 then oret rb else oret rc)))))
+         v (optQ (Qreloc v0)).
+  Proof.
+    intros Htb Hra Hrb Hrc vh lg0 lg1 lv0 lv1 Hop Hh Hm Hf Hp Hh0 Hpe Hpx.
+    assert (Hot : other tb < 2) by (destruct tb as [|[|?]]; cbn; lia).
+    (* leaving: both pairs of locks are released *)
+    assert (Hexit : forall r vv, fst (snd r) < 2 -> v_op vv = v_op v -> v_held vv = v_held v -> v_mic vv = MNone -> v_fly vv = [] -> v_pend vv = v_pend v ->
+              safe t (thenu (unlock2 (lv0, lv1)) (thenu (unlock2 (lg0, lg1)) (oret r))) vv (optQ (Qreloc v0))).
+    { intros r vv Hr2 C1 C2 C3 C4 C5.
+      assert (Hpe' : v_pend vv <> [] -> forall i, i < L -> In (0, 0, i) (lg1 :: lg0 :: H)).
+      { intros E i Hi. right. right. apply Hpe; auto. congruence. }
+      eapply safe_pair_exit with (H := lg1 :: lg0 :: H); eauto; try (unfold lv0, lv1; congruence).
+      - exists (fst vh mod L). split; auto. apply Nat.mod_upper_bound. lia.
+      - eexists; reflexivity.
+      - congruence.
+      - intros v1 B1 B2 B3 B4 B5.
+        eapply safe_pair_exit with (H := H); eauto; try (unfold lg0, lg1; congruence).
+        + exists (fst goal mod L). split; auto. apply Nat.mod_upper_bound. lia.
+        + eexists; reflexivity.
+        + intros E i Hi. apply Hpe; auto. congruence.
+        + intros v2 D1 D2 D3 D4 D5. apply safe_oret. unfold Qreloc, same_rest. split; [exact Hr2|]. repeat split; congruence. }
+    (* a successful placement into table (other tb) *)
+    assert (Hplace : forall g a tr limit, Inv g a tr -> a_view a t = v ->
+              Nat.ltb (List.length (T g (other tb) (bk g (fst x) (other tb)))) limit = true ->
+              exists a', Inv (set_tabs g (set_bkt (tabs g) (other tb) (bk g (fst x) (other tb)) (ins_item (c_ord cf) x (T g (other tb) (bk g (fst x) (other tb))))))
+                             a' (tr ++ Conc.tag t [EvAcc KLd o_mask true]) /\ Conc.frame view t a a' /\
+                         v_op (a_view a' t) = v_op v /\ v_held (a_view a' t) = v_held v /\ v_mic (a_view a' t) = MNone /\
+                         v_fly (a_view a' t) = [] /\ v_pend (a_view a' t) = v_pend v).
+    { intros g a tr limit Hi Hv _. eexists. split; [apply (Inv_place_fly g a tr t x (other tb) _ KLd o_mask true Hi); auto|].
+      - unfold fly. now rewrite Hv.
+      - intros y. apply ins_item_in.
+      - intros Hk. apply ins_item_keys_nodup; auto. apply (c_nodup (proj1 Hi)).
+      - split; [apply frame_setv|]. rewrite setv_same, Hv. unfold pend. rewrite Hv. cbn. auto. }
+    cbn [Conc.safe]. intros g a tr Hi Hv. unfold view in Hv. unfold a_place. fold (T g (other tb) (bidx g (hsel vh (other tb)))).
+    change (bidx g (hsel vh (other tb))) with (bk g (fst x) (other tb)).
+    destruct (Nat.ltb (List.length (T g (other tb) (bk g (fst x) (other tb)))) (c_th cf)) eqn:E1; cbn [fst snd].
+    - destruct (Hplace g a tr (c_th cf) Hi Hv E1) as (a' & K1 & K2 & K3 & K4 & K5 & K6 & K7).
+      exists a'. split; [exact K1|]. split; [exact K2|]. unfold view. cbn [vn Nat.eqb]. apply Hexit; auto.
+    - exists a. split; [eapply Inv_acc; eauto|]. split; [apply frame_refl|]. unfold view. rewrite Hv. cbn [vn vnat Nat.eqb Conc.safe].
+      clear g a tr Hi Hv E1. intros g a tr Hi Hv. unfold view in Hv. unfold a_reloc_partial.
+      fold (T g (other tb) (bidx g (hsel vh (other tb)))). change (bidx g (hsel vh (other tb))) with (bk g (fst x) (other tb)).
+      destruct (Nat.ltb (List.length (T g (other tb) (bk g (fst x) (other tb)))) (c_ps cf)) eqn:E2; cbn [fst snd].
+      + destruct (Hplace g a tr (c_ps cf) Hi Hv E2) as (a' & K1 & K2 & K3 & K4 & K5 & K6 & K7).
+        exists a'. split; [exact K1|]. split; [exact K2|]. unfold view. cbn [vn vnat Nat.eqb]. apply Hexit; auto.
+      + (* no room anywhere: the victim goes back to the head of the probe set it came from *)
+        pose proof Hi as [Hc _].
+        assert (H0 : has0 (a_view a t)) by (exists (fst vh mod L); rewrite Hv, Hh; right; now left).
+        assert (Hmk : mask g = v_mask v) by (rewrite <- Hv; apply (c_mask Hc t H0)).
+        assert (Hb : b = bk g (fst x) tb) by (unfold bk; rewrite Hmk; symmetry; exact Hpx).
+        fold (T g tb b). rewrite Hb.
+        eexists. split; [apply (Inv_place_fly g a tr t x tb (x :: T g tb (bk g (fst x) tb)) KLd o_mask true Hi); auto|].
+        * unfold fly. now rewrite Hv.
+        * intros y. cbn [In]. intuition.
+        * intros Hk. unfold keys. cbn [map]. constructor; [intros Hin; apply khas_in_keys in Hin; congruence|apply (c_nodup Hc)].
+        * split; [apply frame_setv|]. unfold view. rewrite setv_same, Hv. unfold pend. rewrite Hv. cbn [vn vnat Nat.eqb].
+          destruct (Nat.eqb 0 1) eqn:E01; [discriminate|]. apply Hexit; cbn; auto.
+  Qed.
+
+
+  Lemma safe_reloc_attempt t tb goal v H :
+    tb < 2 -> rest_view v H ->
+    safe t (reloc_attempt cf (S t) tb goal) v (optQ (Qreloc v)).
+  Proof.
+    intros Htb (Hh & Hm & Hf & Hp). unfold reloc_attempt.
+    set (lg0 := (0, 0, fst goal mod L)). set (lg1 := (0, 1, snd goal mod L)).
+    apply safe_bindo. apply safe_cell_lock; auto.
+    intros v1 A1 A2 A3 A4 A5 Hext. fold lg0 lg1 in A2.
+    assert (Hexit : forall r, fst (snd r) < 2 -> safe t (thenu (unlock2 (lg0, lg1)) (oret r)) v1 (optQ (Qreloc v))).
+    { intros r Hr2. eapply safe_pair_exit with (H := H); eauto; try (unfold lg0, lg1; congruence).
+      - exists (fst goal mod L). split; auto. apply Nat.mod_upper_bound. lia.
+      - eexists; reflexivity.
+      - rewrite A2, Hh. reflexivity.
+      - congruence.
+      - rewrite A5. exact Hp.
+      - intros v' B1 B2 B3 B4 B5. apply safe_oret. unfold Qreloc, same_rest. split; [exact Hr2|]. repeat split; congruence. }
+    cbn [Conc.safe].
+    (* look at the goal probe set *)
+    intros g a tr Hi Hv. unfold view in Hv. pose proof Hi as [Hc _].
+    assert (Hlg : forall tb', tb' < 2 -> In (0, tb', hsel goal tb' mod L) (held a t)).
+    { intros tb' Htb'. unfold held. rewrite Hv, A2. destruct tb' as [|[|tb']]; [right; now left|now left|lia]. }
+    assert (H0 : has0 (a_view a t)) by (exists (fst goal mod L); apply (Hlg 0); lia).
+    assert (Hm1 : mask g = v_mask v1) by (rewrite <- Hv; apply (c_mask Hc t H0)).
+    destruct (c_len Hc) as (_ & _ & e & He & Hdiv).
+    set (b := hsel goal tb mod S (mask g)).
+    assert (Hbl : b mod L = hsel goal tb mod L) by (unfold b; eapply mod_stripe; eauto).
+    assert (Hau : auth (a_view a t) tb b).
+    { split; auto. left. rewrite Hbl. apply Hlg; auto. }
+    assert (Hreg : T g tb b = v_reg v1 tb b) by (rewrite <- Hv; apply (c_reg Hc t tb b Htb Hau)).
+    exists a. split; [unfold a_reloc_look; destruct (Nat.ltb _ _); eapply Inv_acc; eauto|]. split; [apply frame_refl|].
+    unfold view. rewrite Hv.
+    unfold a_reloc_look. fold (T g tb (bidx g (hsel goal tb))). change (bidx g (hsel goal tb)) with b.
+    destruct (Nat.ltb (List.length (T g tb b)) (c_th cf)) eqn:Eth; cbn [fst snd vn vm vl Nat.eqb]; [apply Hexit; exact Htb|].
+    destruct (T g tb b) as [|x rest] eqn:Eold; cbn [firstn]; [apply Hexit; exact Htb|].
+    (* the victim x; try to take its locks *)
+    assert (Hxin : In x (T g tb b)) by (rewrite Eold; now left).
+    assert (Hpx : hsel (hashes cf (key_of x)) tb mod S (v_mask v1) = b) by (rewrite <- Hm1; apply (c_placed Hc tb b x Htb Hxin)).
+    assert (Hvr : v_reg v1 tb b = x :: rest) by (rewrite <- Hreg; exact Eold).
+    assert (Hau1 : auth v1 tb b).
+    { split; [exists (fst goal mod L); rewrite A2; right; now left|]. left. rewrite A2, Hbl.
+      destruct tb as [|[|tb]]; [right; now left|now left|lia]. }
+    clearbody b. clear g a tr Hi Hv Hc Hlg H0 Hm1 Hau Hreg Eth Eold Hxin Hdiv e He Hbl.
+    set (vh := hashes cf (key_of x)). set (lv0 := (0, 0, fst vh mod L)). set (lv1 := (0, 1, snd vh mod L)).
+    apply safe_bindo. rewrite Hpol. cbn [cell_trylock]. fold lv0 lv1.
+    apply Conc.safe_bind. apply safe_r_try_lock; auto.
+    { apply lk_ok_mk; [lia|apply Nat.mod_upper_bound; lia]. }
+    2:{ apply safe_oret. apply Hexit. exact Htb. }
+    intros v2 (B1 & B2 & B3 & B4 & B5) [Hx1 Hx2]. apply safe_bindo.
+    (* second lock of the victim, and its removal from the probe set in the same step *)
+    apply safe_r_lock_post; auto.
+    { apply lk_ok_mk; [lia|apply Nat.mod_upper_bound; lia]. }
+    intros g a tr Hi (C1 & C2 & C3 & C4 & C5) Hmk Hrg [Hk1 Hk2]. pose proof Hi as [Hc _].
+    assert (Hau2 : auth v2 tb b).
+    { destruct Hau1 as [(i & Hi0) Hx]. split; [exists i; rewrite B2; now right|]. destruct Hx as [Hx|Hx]; [left; rewrite B2; now right|right].
+      intros j Hj. rewrite B2. right. auto. }
+    assert (Hold : T g tb b = x :: rest).
+    { rewrite (Hk2 tb b Htb Hau2). rewrite (Hx2 tb b Htb Hau1). exact Hvr. }
+    assert (H02 : has0 v2) by (exists (fst vh mod L); rewrite B2; now left).
+    assert (Hmg : mask g = v_mask v1) by (rewrite (Hk1 H02); apply Hx1; destruct Hau1; auto).
+    set (v3 := with_tab (a_view a t) tb b rest [x] (pend a t)).
+    exists (setv a t v3). split; [|split; [apply frame_setv|]].
+    - apply (Inv_rm_first g a tr t v3 tb b x rest Hi Htb); auto.
+      + rewrite <- Hpx, <- Hmg. apply Nat.mod_upper_bound. lia.
+      + destruct Hau2 as [(i & Hi0) Hx]. split; [exists i; rewrite C2; right; exact Hi0|].
+        destruct Hx as [Hx|Hx]; [left; rewrite C2; now right|right; intros j Hj; rewrite C2; right; auto].
+      + unfold fly. rewrite C4, B4, A4. exact Hf.
+      + unfold held. rewrite C2, B2. right. now left.
+      + unfold held. rewrite C2. now left.
+      + apply tab_view_with_tab.
+    - rewrite setv_same. apply safe_oret. cbv beta.
+      apply (safe_reloc_place t tb b x goal v v3 H); auto; try (cbn [fst snd]; destruct tb as [|[|?]]; cbn; lia); unfold v3; cbn [with_tab v_op v_held v_mic v_fly v_pend v_mask].
+      + congruence.
+      + rewrite C2, B2, A2, Hh. reflexivity.
+      + unfold pend. congruence.
+      + rewrite <- Hpx. f_equal. f_equal. rewrite Hmk. exact Hmg.
+  Qed.
+
+  Lemma safe_reloc_round t tb goal v H : tb < 2 -> rest_view v H ->
+    forall fuel, safe t (reloc_round cf fuel (S t) tb goal) v (optQ (Qreloc v)).
+  Proof.
+    intros Htb Hr fuel. revert v Hr. induction fuel as [|f IH]; intros v Hr; cbn [reloc_round]; [exact I|].
+    apply safe_bindo. eapply Conc.safe_weaken; [|eapply safe_reloc_attempt; eauto].
+    intros [r|] v' Hq; cbn in *; auto. destruct Hq as (Q0 & Q1 & Q2 & Q3 & Q4 & Q5).
+    destruct Hr as (R1 & R2 & R3 & R4).
+    destruct (Nat.eqb (fst r) 3).
+    - eapply Conc.safe_weaken; [|apply IH]; [|repeat split; try congruence; rewrite Q5; exact R4].
+      intros [r'|] v'' Hq'; cbn in *; auto. destruct Hq' as (S0 & S1 & S2 & S3 & S4 & S5). unfold Qreloc, same_rest. split; auto. repeat split; congruence.
+    - apply safe_oret. unfold Qreloc, same_rest. split; auto. repeat split; auto.
+  Qed.
+
+  Lemma safe_relocate t v H : rest_view v H ->
+    forall rounds tb goal, tb < 2 -> safe t (relocate cf rounds (S t) tb goal) v (optQ (fun _ v' => same_rest v v')).
+  Proof.
+    intros Hr rounds. revert v Hr. induction rounds as [|n IH]; intros v Hr tb goal Htb; cbn [relocate].
+    - apply safe_oret. destruct Hr as (R1 & R2 & R3 & R4). repeat split; auto.
+    - apply safe_bindo. eapply Conc.safe_weaken; [|eapply safe_reloc_round; eauto].
+      intros [r|] v' Hq; cbn in *; auto. destruct Hq as (Q0 & Q1 & Q2 & Q3 & Q4 & Q5). destruct Hr as (R1 & R2 & R3 & R4).
+      destruct (fst r) as [|[|n0]].
+      + apply safe_oret. repeat split; auto.
+      + eapply Conc.safe_weaken; [|apply IH]; [|repeat split; try congruence; rewrite Q5; exact R4|exact Q0].
+        intros [r'|] v'' Hq'; cbn in *; auto. destruct Hq' as (S1 & S2 & S3 & S4 & S5). repeat split; congruence.
+      + apply safe_oret. repeat split; auto.
   Qed.
 
 End Striping.
